@@ -25,7 +25,11 @@ type C13Case struct {
 
 var hostileRunes = []rune{'%', '%', 's', 'd', 'v', '!', '$', '{', '}', '*', '+', '?', '|', '^', '&', '<', '>', '=', '~', '@', '/', ':', 'a', ' ', ' ', '(', ')', '[', ']', ';', ',', '\\', '\n', '\r', '\t', ' ', 'é', '😀', '�', '\'', '`', '#', '-', '.', '0', 'n', 't', ' ', '　', 'x'}
 
-var hostileStringPool = []string{"50%% off", "100%", "a%sb", "%d", "%v%v", "%!s(MISSING)", "${x}", "$1", "{{.}}", "a*b?", "<tag>", "x=y&z", `a\b`, "a\nb", "é z", "a  b", "a(b", "a;b", ")", "(", ";", ";;;; optimize:false", `\`, `\\`, `\n`, " lead", "trail ", "\n", "a\r\nb", "tab\there", "[x]", "a,b", "'q'", "😀", "�", " ", "", "(and a b)", "1", "true", "x y z"}
+// multi-character sequences that text-level passes (line-ending normalisation, space
+// collapsing, escaping, trimming) treat specially
+var hostileFragments = []string{"\r\n", "\r\n", "\n\n", "\n\r", "\r", "  ", "\t\t", " \n ", "\n  ", ") (", "((", "))", ";;", ";;;;", ", ", "\\n", "%%", "\u00a0\u00a0", " \t ", "\r\n\r\n"}
+
+var hostileStringPool = []string{"line one\r\nline two", "\r\n", "x\r\n", "\r\ny", "a\rb", "50%% off", "100%", "a%sb", "%d", "%v%v", "%!s(MISSING)", "${x}", "$1", "{{.}}", "a*b?", "<tag>", "x=y&z", `a\b`, "a\nb", "é z", "a  b", "a(b", "a;b", ")", "(", ";", ";;;; optimize:false", `\`, `\\`, `\n`, " lead", "trail ", "\n", "a\r\nb", "tab\there", "[x]", "a,b", "'q'", "😀", "�", " ", "", "(and a b)", "1", "true", "x y z"}
 
 func genHostileString(t *rapid.T) string {
 	if rapid.Bool().Draw(t, "hpool") {
@@ -34,9 +38,13 @@ func genHostileString(t *rapid.T) string {
 	n := rapid.IntRange(0, 6).Draw(t, "hlen")
 	var sb strings.Builder
 	for i := 0; i < n; i++ {
-		sb.WriteRune(rapid.SampledFrom(hostileRunes).Draw(t, "hrune"))
+		if rapid.IntRange(0, 3).Draw(t, "hfrag") == 0 {
+			sb.WriteString(rapid.SampledFrom(hostileFragments).Draw(t, "hfragment"))
+		} else {
+			sb.WriteRune(rapid.SampledFrom(hostileRunes).Draw(t, "hrune"))
+		}
 	}
-	return sb.String()
+	return strings.ReplaceAll(sb.String(), `"`, "'") // a literal cannot contain a double quote
 }
 
 // hostileLiterals replaces string literals (and list elements) by layout-sensitive ones.
